@@ -55,7 +55,9 @@ class HTTPProtocol(BaseGopherProtocol):
         self.selector = self.slashnormalize(self.selector)
         self.formvals = {}
         if len(splitted) >= 2:
-            self.formvals = urllib.parse.parse_qs(splitted[1])
+            self.formvals = urllib.parse.parse_qs(
+                splitted[1], errors="surrogateescape"
+            )
 
         if "searchrequest" in self.formvals:
             self.searchrequest = self.formvals["searchrequest"][0]
